@@ -793,14 +793,16 @@ fn fam_c(range_i: usize, ctx: &mut Ctx) {
 	for e in easings {
 		for (oi, (o0, o1)) in outs.into_iter().enumerate() {
 			for (xi, &x) in inputs.iter().enumerate() {
-				for ty in 0..5 {
+				for ty in 0..6 {
 					ord += 1;
 					ctx.evals += 1;
 					ctx.traces += 1;
 					ctx.transitions += 1;
 					let ms = MapSpec { i0, i1, inv: false, e };
+					// (durations cannot be negative: |o| + 2 ms seconds, which keeps one ascending, one flat and one descending range)
+					let (o0, o1) = if ty == 5 { (o0.abs() + 0.002, o1.abs() + 0.002) } else { (o0, o1) };
 					let want = ms.eval(o0, o1, x);
-					let detail = || format!("Mapping{{input_range ({}, {}), output_range ({}, {}) as {}, easing {:?}}}.map({})", i0, i1, o0, o1, ["f64", "Decibels", "ClockSpeed::TicksPerSecond", "PlaybackRate", "f64 via LFO offset linked to a modulator value"][ty], e, x);
+					let detail = || format!("Mapping{{input_range ({}, {}), output_range ({}, {}) as {}, easing {:?}}}.map({})", i0, i1, o0, o1, ["f64", "Decibels", "ClockSpeed::TicksPerSecond", "PlaybackRate", "f64 via LFO offset linked to a modulator value", "Duration (seconds)"][ty], e, x);
 					ctx.count("C_mapping_evaluations", 1);
 					ctx.sample(ord, detail);
 					let got = catch(|| match ty {
@@ -808,6 +810,7 @@ fn fam_c(range_i: usize, ctx: &mut Ctx) {
 						1 => Mapping { input_range: (i0, i1), output_range: (Decibels(o0 as f32), Decibels(o1 as f32)), easing: e }.map(x).0 as f64,
 						2 => Mapping { input_range: (i0, i1), output_range: (ClockSpeed::TicksPerSecond(o0), ClockSpeed::TicksPerSecond(o1)), easing: e }.map(x).as_ticks_per_second(),
 						3 => Mapping { input_range: (i0, i1), output_range: (PlaybackRate(o0), PlaybackRate(o1)), easing: e }.map(x).0,
+						5 => Mapping { input_range: (i0, i1), output_range: (std::time::Duration::from_secs_f64(o0), std::time::Duration::from_secs_f64(o1)), easing: e }.map(x).as_secs_f64(),
 						_ => {
 							let mut mib = MockInfoBuilder::new();
 							let src = mib.add_modulator(x);
